@@ -1,6 +1,7 @@
 CONSTANTS
   Slots = {1, 2, 3}
-  Notifiers = {1, 2}
-  Shape = "two"
+  Notifiers = {1}
+  Shape = "one"
+  Cancels = {1}
   Variant = "code"
 INVARIANTS TypeOK NoPanic OkOnlyIfNotified DeregOnlyIfDeregistered MustWake CountOK Cleanup
